@@ -50,7 +50,7 @@ func C01(c *Ctx) error {
 	n := c.N(6, 40)
 	perMethod := c.N(12, 60)
 	bt, items, err := buildBatch(n, func(i int) *ir.Request {
-		return gen.GenRuntimeFile(r.Fork(fmt.Sprint("c01-", i)), i, gen.RuntimeOpts{ManyMethods: i%2 == 1, TrailingSlash: i%2 == 0, OptionalPath: i%3 != 2, JSONNames: i%2 == 0, AnnotatedBodies: i%3 != 0, WellKnown: i%2 == 1, ReorderPathFields: true})
+		return gen.GenRuntimeFile(r.Fork(fmt.Sprint("c01-", i)), i, gen.RuntimeOpts{ManyMethods: i%2 == 1, TrailingSlash: i%2 == 0, OptionalPath: i%3 != 2, JSONNames: i%2 == 0, AnnotatedBodies: i%3 != 0, WellKnown: i%2 == 1, ReorderPathFields: true, OddBasePaths: i%2 == 0})
 	}, scratch.AddOpts{GoHTTP: true, GoClient: true}, false)
 	if err != nil {
 		return err
